@@ -5,7 +5,7 @@ from ..core import RuleResult, arm_name, is_len_path
 from ..poly import Poly
 from ..interp import implies, cmp_fact, as_poly, Tree
 from .util import *
-from .bounds import handle_ctors
+from .bounds import handle_ctors, range_handle_invariants
 
 ONE = Poly.const(1)
 
@@ -345,7 +345,8 @@ def r_formula(ctx):
             res.coverage_lost(adt, "no Drop impl for range handle")
             continue
         has_replacement = any("ExactSizeIterator" in w for w in im.get("where", []))
-        for tt, I in arms(dp):
+        inv, _ = range_handle_invariants(ctx, adt)
+        for tt, I in (ctx.arms(dp, entry_facts=inv) or []):
             row = Row(res, ctx, "%s::drop" % name, dp, tt, I)
 
             def F(k):
@@ -470,7 +471,7 @@ def _splice_row(row, I, sh, start, OL, E, st, fl, F, roles):
         # LEN(now) is the lowered length == start (by construction); accept LEN symbol or start
         lp = len_path_of_mem(r["mem"])
         Lnow = Poly.atom(("init", lp, 0)) if lp else None
-        ok = needed == want
+        ok = needed == want or implies(r["facts"], ("eq0", _canon(needed - want)))
         if not ok:
             row.fail("reserved total is %s, the Vec model requires start + k + tail = %s (reserve takes the number of ADDITIONAL elements)"
                      % (needed, want), r, "reserve")
